@@ -583,6 +583,28 @@ def rule_hull(chk, w):
                  "found %d" % n)
 
 
+def rule_wf(chk, w):
+    """WF: every range update_chain_tip builds is ordered (see rules/c15_wf.py): ScanRange::from_parts panics on
+    an inverted range, which would abort the tip update."""
+    import c15_wf
+    try:
+        root = w.fn(SQ + "update_chain_tip")
+    except KeyError:
+        chk.fail("WF", "missing", "update_chain_tip not found")
+        return
+    res = c15_wf.check(w, root)
+    for prio, t, ok, detail in res:
+        m = re.findall(r"([a-z_]+)\(arg0\)", detail)
+        what = m[0] if m else "bound"
+        if ok:
+            chk.ok("WF", "update_chain_tip: the %s range is ordered on every path (%s)" % (prio, detail), sample=(prio == "Verify"))
+        else:
+            chk.fail("WF", "update_chain_tip/%s/%s" % (prio, what), "the %s range built by update_chain_tip can be inverted "
+                     "(ScanRange::from_parts would panic): %s" % (prio, detail), t.span.loc())
+    if len(res) < 6:
+        chk.fail("WF", "sites", "expected the six ranges update_chain_tip builds, found %d" % len(res))
+
+
 def main(tier):
     chk = Check("C15", "other", tier)
     chk.explanation = (
@@ -601,6 +623,7 @@ def main(tier):
     chk.rule("SCAN", "scan_complete marks exactly the scanned range", floor=3)
     chk.rule("SUGGEST", "everything above Scanned is suggested, highest priority first", floor=2)
     chk.rule("FORCE", "operations that exist to rescan force the replacement", floor=2)
+    chk.rule("WF", "the ranges update_chain_tip builds are ordered on every path", floor=6)
     chk.rule("HULL", "the range replace_queue_entries is asked to replace covers the entries handed in", floor=4)
     w = zf.World(extract.facts_dir("all"), ["zcash_client_backend", "zcash_client_sqlite"])
     rule_dom(chk, w)
@@ -611,4 +634,5 @@ def main(tier):
     rule_suggest(chk, w)
     rule_force(chk, w)
     rule_hull(chk, w)
+    rule_wf(chk, w)
     chk.finish()
